@@ -1151,6 +1151,55 @@ class ParseReferences(Contract):
 
     obligation_props = {'WcParse._references.rewind': ('C10',)}
 
+
+# --------------------------------------------------------------------------------------------------------------- WcParse._sequence_range_check
+ORD = z3.Function('ord_of', z3.StringSort(), z3.IntSort())
+
+
+class SequenceRangeCheck(Contract):
+    r"""WcParse._sequence_range_check(result, last): `result` ends in [.., first, '-']; the range first-last is kept (last appended, returns False) iff its end is
+    not below its start - compared on the characters themselves, an escaped spelling `\c` counting as `c` -, otherwise start and hyphen are removed and True is
+    returned (a reversed range would make the regular expression invalid: C10)."""
+    module, qual, props = '_wcparse', 'WcParse._sequence_range_check', ('C01', 'C10')
+
+    def inputs(self):
+        self.first, self.last = z3.String('result[-2]'), z3.String('last')
+        return dict(params=dict(self=selfobj(), result=V('tuple', None, items=[Str(self.first), Str(z3.String('result[-1]'))]), last=Str(self.last)), fields={}, pre=[z3.Length(self.first) >= 1, z3.Length(self.last) >= 1],
+                    ghost={'$pops': 0, '$appended': []})
+
+    @property
+    def hooks(self):
+        me = self
+
+        def h_pop(eng, node, st, args):
+            st.ghost['$pops'] = st.ghost['$pops'] + 1
+            return ObjV(z3.Const(pyvc.fresh('popped'), Obj))
+
+        def h_append(eng, node, st, args):
+            st.ghost['$appended'] = st.ghost['$appended'] + [args[0]]
+            return NONE
+        return {'result.pop': h_pop, 'result.append': h_append, 'ord': lambda eng, node, st, args: Int(ORD(args[0].t))}
+
+    def locate(self):
+        return pyvc.find_def(self.module, self.qual)
+
+    @property
+    def ensures(self):
+        me = self
+
+        def post(c):
+            def ch(t):
+                return z3.If(z3.Length(t) > 1, z3.SubString(t, 1, 1), t)
+            reversed_ = ORD(ch(me.last)) < ORD(ch(me.first))
+            pops, app = c.st.ghost['$pops'], c.st.ghost['$appended']
+            removed = z3.BoolVal(pops == 2 and not app)
+            kept = z3.And(z3.BoolVal(pops == 0 and len(app) == 1), app[0].t == me.last) if len(app) == 1 and app[0].kind == 'str' else z3.BoolVal(False)
+            return z3.And(T(c.ret) == reversed_, z3.If(reversed_, removed, kept))
+        return [('WcParse._sequence_range_check.a_range_is_kept_iff_its_end_is_not_below_its_start_(escaped_spellings_count_as_the_character);a_reversed_one_is_removed_with_its_hyphen', ('C01', 'C10'), post)]
+
+
+ALL_SEQ = [SequenceRangeCheck()]
+
 ALL_EXP = [IterPatternsFn(), IterPatternsSeq(), IterPatternsBytes(), TildePos(), TildePosBytes(), ExpandBraces(), EscapeFn(), EscapeFnBytes()]
 
-ALL = [SetAfterStart(), SetStartDir(), ResetDirTrack(), UpdateDirState(), RestrictSequence(), RestrictExtendedSlash(), ParseFrame(), ParseBytes(), ParseReferences()] + ALL_EXP + ALL_SCAN + ALL_NORM
+ALL = [SetAfterStart(), SetStartDir(), ResetDirTrack(), UpdateDirState(), RestrictSequence(), RestrictExtendedSlash(), ParseFrame(), ParseBytes(), ParseReferences()] + ALL_EXP + ALL_SCAN + ALL_NORM + ALL_SEQ
